@@ -123,7 +123,9 @@ proof fn axiom_canon(s: Seq<u8>)
     ensures canon(s) == s || canon(s) == rc_seq(s), canon(rc_seq(s)) == canon(s),
 {}
 
-trait Kmer: Mer + Copy + std::hash::Hash {
+// (PartialEq is part of the real trait's bounds; `==` / `!=` on k-mers is accepted by the front end and left unspecified here -
+// equality of well-formed k-mers is equality of their views, Kani family k_eq_ord)
+trait Kmer: Mer + Copy + std::hash::Hash + PartialEq {
     spec fn kk() -> nat;
 
     /// every well-formed k-mer has exactly K bases, each < 4
